@@ -87,10 +87,21 @@ def general(rnd, nsteps=30, codec=None, U=None, cfg=None, nclients=None, feature
     minted = 0  # upper bound on ids minted so far (for forged 'dead id' picks)
     users = ["u0", "u1"]
     keys = ["k0", "k1", "k2"]
+    # "aligned": every request starts on an exact multiple of the time unit (`waitto`), so that idle times, id ages and cache
+    # ages EQUAL to a configured duration occur (the boundaries "at least"/"younger than"/"longer than" of C03, C04, C05, C12)
+    aligned = "aligned" in features
+    grid = 0
+
+    def slot(k):
+        nonlocal grid
+        grid += k
+        sc.add("waitto", grid * U)
     for _ in range(nsteps):
         r = rnd.random()
         if r < 0.58:
             c = rnd.choice(clients)
+            if aligned and rnd.random() < 0.85:
+                slot(rnd.choice([1, 1, 1, 2, 2, 3, 4]))
             spec = "jar"
             if "forged" in features and rnd.random() < 0.25:
                 spec = forged_spec(rnd, minted)
@@ -144,7 +155,10 @@ def general(rnd, nsteps=30, codec=None, U=None, cfg=None, nclients=None, feature
                     break
             sc.add("end")
         elif r < 0.80:
-            sc.add("wait", rnd.choice([1, 1, 2, 3, 4, 5, 7, 9, 12, 25]) * U)
+            if aligned:
+                slot(rnd.choice([1, 1, 2, 3, 4, 5, 7, 9, 12, 25]))
+            else:
+                sc.add("wait", rnd.choice([1, 1, 2, 3, 4, 5, 7, 9, 12, 25]) * U)
         elif r < 0.84:
             sc.add("purge")
         elif r < 0.87:
@@ -159,6 +173,8 @@ def general(rnd, nsteps=30, codec=None, U=None, cfg=None, nclients=None, feature
             sc.add("crash")
         elif r < 0.99 and minted > 0:
             sc.add("expired", "g%d" % rnd.randrange(minted))
+        elif aligned:
+            slot(1)
         else:
             sc.add("wait", U)
     return sc.text()
